@@ -148,7 +148,15 @@ def harness_cmd(b):
     cmd = '%s -std=gnu++17 %s %s -D%s %s %s %s -MMD -MF %s.d %s -o %s %s %s %s -ldl -lpthread' % (
         cxx, b.get('opt', OPT), san, GUARD, defs, b.get('flags', ''), inc, out,
         ' '.join(srcs), out, libs, rclib, b.get('libs', ''))
-    return out, cmd, list(dict.fromkeys(srcs + deps))
+    # 'pre': shell commands run before the harness itself is compiled (shared objects the harness loads at run time); the
+    # placeholders {out} {repo} {verif} {inc} {guard} are filled in here.  'pre_deps': files (relative to the repository or to
+    # /verif) whose change must trigger the rebuild; a file a change has removed is simply left out.
+    pre = ''.join(x.format(out=out, repo=REPO, verif=VERIF, inc=inc, guard=GUARD) + ' && ' for x in b.get('pre', []))
+    for x in b.get('pre_deps', []):
+        for base in (REPO, VERIF):
+            if os.path.exists(os.path.join(base, x)):
+                deps.append(os.path.join(base, x))
+    return out, pre + cmd, list(dict.fromkeys(srcs + deps))
 
 
 def gen_version_h():
